@@ -129,3 +129,23 @@ Proof.
   assert (A : ALG_EDDSA = -8 /\ CRV_ED25519 = 6) by (vm_compute; split; reflexivity). destruct A as [A1 A2]. rewrite A1 in G1. rewrite A2 in G2.
   cbn in G1, G2. apply Z.eqb_eq in G1, G2. cbn [bind] in H. apply bind_guard_ok in H as [G H]. injection H as <-. auto.
 Qed.
+(* a COSE key is read through the labels of its type only: two encodings whose maps agree on kty, alg, crv / n, x / e, y decode to the same key -
+   whatever else they carry (kid, key_ops with any content, Base IV, private labels), and in whatever order *)
+Lemma decode_reads_its_labels_only : forall key key' m m',
+  hd 0 key <> 4 -> hd 0 key' <> 4 -> key <> [] -> key' <> [] ->
+  parse_cbor key = Ok (CMap m) -> parse_cbor key' = Ok (CMap m') ->
+  (forall l, In l [L_KTY; L_ALG; L_CRV; L_X; L_Y; L_N; L_E] -> dict_get m' (CInt l) = dict_get m (CInt l)) ->
+  decode_credential_public_key key' = decode_credential_public_key key.
+Proof.
+  intros key key' m m' H4 H4' Hn Hn' Hp Hp' Hag.
+  assert (G : forall l, In l [L_KTY; L_ALG; L_CRV; L_X; L_Y; L_N; L_E] -> must_get m' l = must_get m l).
+  { intros l Hl. unfold must_get. rewrite (Hag l Hl). reflexivity. }
+  unfold decode_credential_public_key.
+  destruct key as [|b0 k]; [congruence|]. destruct key' as [|b0' k']; [congruence|].
+  cbn [hd] in H4, H4'.
+  destruct (b0 =? 4) eqn:E; [apply Z.eqb_eq in E; congruence|].
+  destruct (b0' =? 4) eqn:E'; [apply Z.eqb_eq in E'; congruence|].
+  rewrite Hp, Hp'. cbn [bind].
+  rewrite !G by (cbn [In]; tauto).
+  reflexivity.
+Qed.
